@@ -575,6 +575,66 @@ func runC04(c *Ctx) {
 		}
 	}
 
+	// library calls that panic on a non-positive argument: the argument is established positive on the very value passed
+	{
+		nRand := 0
+		for _, rel := range []string{interpPkg, vmPkg} {
+			for _, fn := range c.srcFuncs(rel) {
+				k := 0
+				eachInstr(fn, func(_ *ssa.BasicBlock, _ int, ins ssa.Instruction) {
+					call, ok := ins.(*ssa.Call)
+					if !ok {
+						return
+					}
+					switch callName(call) {
+					case "math/rand.Int63n", "math/rand.Intn", "math/rand.Int31n", "math/rand.Rand.Int63n", "math/rand.Rand.Intn", "math/rand.Rand.Int31n",
+						"math/rand/v2.IntN", "math/rand/v2.Int64N", "math/rand/v2.Int32N", "math/rand/v2.N":
+					default:
+						return
+					}
+					arg := call.Call.Args[len(call.Call.Args)-1]
+					if n, ok := constInt(arg); ok && n > 0 {
+						return
+					}
+					k++
+					nRand++
+					q := &pathQuery{fn: fn, target: func(x ssa.Instruction) bool { return x == ins }, cutEdge: func(b *ssa.BasicBlock, si int) bool {
+						iff := ifOf(b)
+						if iff == nil {
+							return false
+						}
+						c2, ok := iff.Cond.(*ssa.BinOp)
+						if !ok {
+							return false
+						}
+						if sameVal(c2.X, arg) {
+							if n, ok := constInt(c2.Y); ok {
+								switch {
+								case c2.Op == token.GTR && n >= 0 && si == 0, c2.Op == token.GEQ && n >= 1 && si == 0,
+									c2.Op == token.LEQ && n >= 0 && si == 1, c2.Op == token.LSS && n >= 1 && si == 1:
+									return true
+								}
+							}
+						}
+						if sameVal(c2.Y, arg) {
+							if n, ok := constInt(c2.X); ok {
+								switch {
+								case c2.Op == token.LSS && n >= 0 && si == 0, c2.Op == token.LEQ && n >= 1 && si == 0,
+									c2.Op == token.GEQ && n >= 0 && si == 1, c2.Op == token.GTR && n >= 1 && si == 1:
+									return true
+								}
+							}
+						}
+						return false
+					}}
+					hit, path := q.fromEntry()
+					c.ob("C04-R9", fnKey(fn)+"#rand-bound-positive-"+itoa(k), call.Pos(), hit == nil, "the bound handed to "+short(callName(call))+" is not established positive on the value passed (a test of the operands it was computed from does not survive overflow): randomInt(0, 9223372036854775807) computes max-min+1 = a negative number and the call panics - a Go panic instead of a GlyphLang error", c.blockPath(path)...)
+				})
+			}
+		}
+		c.Sites["C04-R9#rand-bounds"] = nRand
+	}
+
 	// ---------- L2 generic error bodies ----------
 	c.rule("C04-R13", "TNT: an error that can come from evaluating program code (Interpreter.EvaluateExpression, executeStatements, and every function of pkg/interpreter whose returned error can derive from theirs: ApplyTypeDefaults for a default expression, a query-default helper) is a fault of the program, not of the caller: in pkg/interpreter no Response literal with a 4xx StatusCode carries text derived from such an error (4xx with the error text is reserved for what the request got wrong - its query string, its body)")
 	{
